@@ -17,7 +17,9 @@ CONTENT_TYPES = [('nat',), ('string',), ('unit',), ('pair', ('nat',), ('string',
                  # optional contents whose payload has a value Python treats as false: `Some ""` / `Some False` are not `None`
                  ('option', ('string',)), ('option', ('bool',)), ('pair', ('nat',), ('option', ('string',))),
                  # unions whose two branches hold the same payload type: `Left v` and `Right v` are different contents
-                 ('or', ('nat',), ('nat',)), ('or', ('unit',), ('unit',)), ('pair', ('or', ('string',), ('string',)), ('nat',))]
+                 ('or', ('nat',), ('nat',)), ('or', ('unit',), ('unit',)), ('pair', ('or', ('string',), ('string',)), ('nat',)),
+                 # an option directly inside an option: `None` and `Some None` are different contents
+                 ('option', ('option', ('nat',))), ('pair', ('nat',), ('option', ('option', ('bool',))))]
 
 
 # ---------------------------------------------------------------------------------------------- printers
